@@ -102,6 +102,17 @@ def object_schemas(values, tier):
                     "maxProperties": 1})
         out.append({"type": "object", "properties": {n1: values[0], n2: values[1]}, "minProperties": 2,
                     "additionalProperties": True})
+    # combinators with constrained members as property schemas (constraints must survive the field path)
+    for kw in ("allOf", "anyOf", "oneOf"):
+        out.append({"type": "object", "properties": {"a": {kw: [{"type": "integer", "minimum": 0}, {"maximum": 10}]}}})
+        if kw != "allOf":       # (string and integer) is unsatisfiable
+            out.append({"type": "object", "properties": {"a": {kw: [{"type": "string", "maxLength": 1}, {"type": "integer", "minimum": 3}]}},
+                        "required": ["a"]})
+        out.append({"type": "object", "properties": {"class": {"type": "object", "properties": {"a": {kw: [{"type": "integer", "minimum": 0},
+                                                                                                        {"type": "null"}]}}}}})
+    for n1, n2 in (("class", "items"), ("a-b", "a"), ("_p", "a"), ("1x", "keys")):
+        out.append({"type": "object", "properties": {n1: {"type": "integer"}, n2: {"type": "integer"}}, "dependentRequired": {n1: [n2]}})
+        out.append({"type": "object", "properties": {n1: {"type": "integer"}, n2: {"type": "integer"}}, "dependentRequired": {n2: [n1]}})
     out.append({"type": "object", "required": ["a"]})
     out.append({"properties": {"a": {"type": "integer"}}, "required": ["a"]})
     return out
@@ -147,7 +158,9 @@ INSTANCES = [None, True, False, 0, 1, -1, 2, 3, 4, 10, 11, 1.5, 2.0, -0.5, "", "
              {"a": 1}, {"a": "x"}, {"a": -1}, {"a": None}, {"a": 1, "b": 2}, {"b": 2}, {"a-b": 1}, {"a": 1, "a-b": 2}, {"class": 1},
              {"class": 1, "items": 2}, {"items": 1}, {"items": [1]}, {"keys": 1, "update": 2}, {"1x": 1}, {"_p": 1}, {"a": 1, "_p": 2},
              {"a": 1, "zz": 2}, {"a": 1, "zz": "x"}, {"zz": 2}, {"a": [1]}, {"a": [1, "x"]}, {"a": {"a": 1}}, {"a": {"a": "x"}},
-             {"a_b": 1, "a-b": 2}, {"a": 1, "b": 2, "c": 3}, {"a": "ab"}, {"a": "abc"}, {"a": True}, {"a": 1.5}]
+             {"a_b": 1, "a-b": 2}, {"a": 1, "b": 2, "c": 3}, {"a": "ab"}, {"a": "abc"}, {"a": True}, {"a": 1.5}, {"a": 11}, {"a": 5},
+             {"class": {"a": -1}}, {"class": {"a": None}}, {"a-b": 1, "a": 2}, {"_p": 1, "a": 2}, {"1x": 1}, {"1x": 1, "keys": 2}, {"keys": 2},
+             {"items": 2}]
 
 
 def bounds(tier):
